@@ -192,7 +192,9 @@ func (k *Keeper) SetTaskResultInfo(
 			)
 		}
 		// check parameters
-		if info.BlsSignature == nil {
+		// an empty-but-present signature must be rejected too: protobuf drops empty bytes, so it
+		// would be read back as nil and the result would never count as signed
+		if len(info.BlsSignature) == 0 {
 			return errorsmod.Wrap(
 				types.ErrParamNotEmptyError,
 				fmt.Sprintf("SetTaskResultInfo: invalid param BlsSignature is not be null (BlsSignature: %s)", info.BlsSignature),
